@@ -18,7 +18,7 @@ CHECKS = {
              "import relation of a bounded world that it equals the documentation's table, then every state TLC "
              "emits is replayed into real Rule objects with the full single-subject/object rule space and every "
              "evaluation (plus seeded random larger worlds with batches) is validated event by event against the "
-             "specification. 'Sub modules of P' are P's strict descendants in both directions (an import between one of them "
+             "specification. Worlds shaped like scanned trees (every package has an __init__ module) are included. 'Sub modules of P' are P's strict descendants in both directions (an import between one of them "
              "and P itself is an import of/by something else - no don't-care corner is left in the oracle). Architectures' "
              "own hierarchy edges are observed and must be the parent/child relation of the names. Exhaustive for the "
              "bounded worlds, sampling judged by the model beyond.",
@@ -68,7 +68,7 @@ CHECKS = {
              "random architectures and on level-limited scans, badly tagged diagram files (no tags, start only, end only, "
              "reversed), all well-shaped LayerRule chains and their single-call mutations, diagrams naming a component that is no module (on "
              "architectures that also violate the rest of the diagram) and all 64 entry-point option combinations are "
-             "validated the same way. With VIEW = automaton state TLC finds every reachable state of the three automata "
+             "validated the same way (unknown names also batched with existing modules, their own parent included). With VIEW = automaton state TLC finds every reachable state of the three automata "
              "(model-level invariants then hold for histories of any length); every state is replayed by a shortest "
              "history and every transition as 'shortest history + one call', once on a fresh object and once on an object "
              "that was evaluated in the state before the call.",
@@ -85,7 +85,8 @@ CHECKS = {
              "histories up to six calls, plus a name that differs from another by a trailing blank only) covers guards that "
              "must look at every earlier layer; LayerRule histories likewise (architecture first, exactly one subject "
              "layer), plus all well-shaped chains (every verb x access kind x object layer list); after every LayerRule call "
-             "and evaluation the definition of the architecture it is based on is observed and must be unchanged. Every state "
+             "and evaluation the definition of the architecture it is based on is observed and must be unchanged; "
+             "architecture.layer_mapping is a third view of the definition that must agree with [] and str(). Every state "
              "and every transition of the complete LayeredArchitecture and LayerRule automata (TLC with VIEW = automaton "
              "state: histories of any length) is replayed as well.",
         design_ref="6 (C16)"),
@@ -99,7 +100,10 @@ CHECKS = {
              "adding intra-layer imports never changes an outcome and that singleton layers reduce to module rules. Every "
              "emitted state is replayed with all 12 shapes + aliases x 1-2 object layers for name/regex/mixed definitions, "
              "plus seeded random worlds whose layers list unrelated modules at any depth (a layer may repeat a module by one of "
-             "its own descendants); verdict, message lines and layer tags are validated by the trace specification.",
+             "its own descendants); verdict, message lines and layer tags are validated by the trace specification. Sessions "
+             "with two module trees bind a pattern-defined layer to the architecture a rule is applied to; the layer rules the "
+             "repository's own suite evaluates (189, recorded by a pytest plugin that wraps LayerRule from outside) are "
+             "validated by the same trace specification.",
         design_ref="6 (C05)"),
     "C06": dict(
         technique="TLA+ abstract syntax of the documented PlantUML subset (DiagramSem.tla); TLC enumerates diagrams "
@@ -110,7 +114,8 @@ CHECKS = {
              "and seeded random diagrams of 2-6 components with mixed forms, alias/name references and text outside the "
              "tags are rendered, parsed by the real code, and compared by the trace specification; a file that lacks a tag "
              "(none, start only, end only, end before start - DiagramSem!WellTagged) must "
-             "raise a parsing error. The concrete syntax lives in a trusted, self-checked renderer.",
+             "raise a parsing error. Component names that begin with words of the PlantUML language and files saved with "
+             "CR LF line ends are part of the inputs. The concrete syntax lives in a trusted, self-checked renderer.",
         design_ref="6 (C06)"),
     "C07": dict(
         technique="TLC checks on a bounded model that pairwise conformance equals the conjunction of the generated "
@@ -121,7 +126,8 @@ CHECKS = {
              "of their lines). Real DiagramRule evaluations (both modes, both naming options, bystanders and sub modules) "
              "on emitted states and seeded random worlds are validated for verdict and complete aggregated message; components "
              "with dotted names two or three levels below a base module, in trees where a package contains a sub package of "
-             "its own name, bind with_base_module(p) to 'p.<component>'.",
+             "its own name, bind with_base_module(p) to 'p.<component>'; one DiagramRule object is re-targeted between twin "
+             "packages with with_base_module and must behave like a fresh rule each time.",
         design_ref="6 (C07)"),
     "C02": dict(
         technique="TLA+ specification of import resolution (Scan!Named / MustImports / MayImports) in which a statement's "
@@ -230,7 +236,8 @@ CHECKS = {
              "and imports - and through Graph.tla, in which TLC explores EVERY processing order of the module and import "
              "lists against an order-free result, the real builder being compared with it in several orders; layer rules "
              "are evaluated with every list argument reversed; and a mixed bag of episodes is run in fresh interpreters under 8 PYTHONHASHSEED values whose "
-             "traces must be identical. Trees in which a directory is a symbolic link to another one, and real source trees "
+             "traces must be identical. Trees in which a directory is a symbolic link to another one, trees with a module file "
+             "next to a package of the same name (compared with each other only), and real source trees "
              "found on this machine, are re-scanned under shuffled enumeration.",
         design_ref="6 (C15)"),
     "C17": dict(
@@ -245,8 +252,9 @@ CHECKS = {
              "options) are passed to the real visualize(); the keyword arguments received by the drawing backend are "
              "validated: every module labelled exactly once with the specified label, unknown aliased module rejected "
              "naming it, other options unchanged; each call repeated under collision-free and adversarial renamings, on "
-             "level-limited architectures (aliases for modules below the limit name no module) and on shuffled module "
-             "listings with implicit parent packages.",
+             "level-limited architectures (aliases for modules below the limit name no module), on shuffled module "
+             "listings with implicit parent packages, with file names that sort before the dot ('api-x' next to 'api') and "
+             "with several top-level packages.",
         design_ref="6 (C17)"),
 }
 
